@@ -576,6 +576,12 @@ Lemma code_restores_in_finally : restore_finally facts_disc = true.
 Proof. reflexivity. Qed.
 Lemma code_entry_points_push : SrcFacts.c13_entry_points_push = true.
 Proof. reflexivity. Qed.
+(* every Stack built by _extract.py owns a fresh frames list (no mutable default argument, no
+   module-level list): the model's [CStub] observation "a frameless stub carrying only root"
+   is an observation about ONE stack; without this fact stubs could share their list and stop
+   being frameless once a consumer expands one of them in place *)
+Lemma code_fresh_result_lists : SrcFacts.c13_fresh_result_lists = true.
+Proof. reflexivity. Qed.
 
 Definition code_noninterference := noninterference facts_disc code_thread_local.
 Definition code_single_thread := equals_single_thread_run facts_disc code_thread_local.
